@@ -9,6 +9,7 @@
      N;r k        Unrank(r,k) followed by Rank of the result
      O;r k        Unrank(r,k), decided by the harness's oracle only (too many steps for this driver)
      X;n k        all values of CombinationsColex(n,k)
+     S;tok ...    a sequence of calls (T<n>, U<n>,<k>, C<n>,<k>, R<c0>,..., N<r>,<k>, m) in one process
 
    Projected observation = what the property determines: the exact value where the function
    must return, `opt:<value>` where it may either return the exact value or panic (the value
@@ -135,6 +136,39 @@ let obs_colex n k =
   go Z0 true;
   Buffer.contents buf
 
+(* one call: kind and arguments *)
+let obs_call (kind : string) (zs : z list) : string =
+  match kind, zs with
+  | "U", [n; k] when Z.leb Z0 n && Z.leb Z0 k && Z.ltb n two64 && Z.ltb k two64 -> obs_u64 n k
+  | "C", [n; k] when Z.leb Z0 n -> obs_coeff n k
+  | "T", [n] when Z.leb Z0 n -> obs_coeffs n
+  | "R", c -> obs_rank c
+  | "N", [r; k] when Z.leb Z0 r && Z.leb r two63m1 && (Z.ltb Z0 k || (Z.eqb k Z0 && Z.eqb r Z0)) -> obs_unrank r k
+  | "O", [_; _] -> "oracle-only"
+  | "X", [n; k] when Z.leb Z0 n && Z.leb Z0 k -> obs_colex n k
+  | _ -> "invalid"
+
+let projected (o : string) : string =
+  (* the part before " ## " *)
+  let n = String.length o in
+  let rec find i = if i + 4 > n then n else if String.sub o i 4 = " ## " then i else find (i + 1) in
+  String.sub o 0 (find 0)
+
+(* a sequence of calls in one process: the model has no state, so every call is judged on its own;
+   "m" (the caller scribbles over what the previous call returned) changes nothing *)
+let obs_seq (toks : string list) : string =
+  let one tok =
+    if tok = "m" then "m"
+    else begin
+      let kind = String.sub tok 0 1 in
+      if not (String.contains "UCTRN" kind.[0]) then raise Not_found;
+      let rest = String.sub tok 1 (String.length tok - 1) in
+      let zs = List.map z_of_string (List.filter (fun s -> s <> "") (String.split_on_char ',' rest)) in
+      projected (obs_call kind zs)
+    end
+  in
+  String.concat " | " (List.map one toks)
+
 let () =
   if translation_failed_comb then begin
     prerr_endline "coq/Gen/CombTables.v: the translator did not find the tables in comb.go (translation_failed_comb)";
@@ -148,16 +182,8 @@ let () =
           let i = String.index line ';' in
           let kind = String.sub line 0 i in
           let args = List.filter (fun s -> s <> "") (String.split_on_char ' ' (String.sub line (i + 1) (String.length line - i - 1))) in
-          let zs = List.map z_of_string args in
-          match kind, zs with
-          | "U", [n; k] when Z.leb Z0 n && Z.leb Z0 k && Z.ltb n two64 && Z.ltb k two64 -> obs_u64 n k
-          | "C", [n; k] when Z.leb Z0 n -> obs_coeff n k
-          | "T", [n] when Z.leb Z0 n -> obs_coeffs n
-          | "R", c -> obs_rank c
-          | "N", [r; k] when Z.leb Z0 r && Z.leb r two63m1 && (Z.ltb Z0 k || (Z.eqb k Z0 && Z.eqb r Z0)) -> obs_unrank r k
-          | "O", [_; _] -> "oracle-only"
-          | "X", [n; k] when Z.leb Z0 n && Z.leb Z0 k -> obs_colex n k
-          | _ -> "invalid"
+          if kind = "S" then obs_seq args
+          else obs_call kind (List.map z_of_string args)
         with Not_found | Failure _ | Invalid_argument _ -> "invalid"
       in
       print_endline out
